@@ -3,7 +3,7 @@
 //! return exactly the reference rows (brute-force three-valued evaluation in expr.rs), and
 //! `count_rows` must equal the number of reference rows.
 use crate::expr::{self, Cell, Cmp, E};
-use crate::{CLASS_LIMIT0, CLASS_ORDER_UNPROJ, CLASS_PUSHDOWN};
+use crate::{CLASS_BITMAP_RANGE, CLASS_LIMIT0, CLASS_ORDER_UNPROJ, CLASS_PUSHDOWN};
 use arrow_array::*;
 use arrow_schema::{DataType, Field, Schema};
 use futures::TryStreamExt;
@@ -267,6 +267,18 @@ fn gen_expr(rng: &mut Rng, cols: &[Col], depth: u32, under_not: bool, oob: &mut 
     }
 }
 
+/// BETWEEN lo AND hi with lo > hi on a Bitmap-indexed column (finding bitmap_index_inverted_range_panic)
+fn inverted_between_on_bitmap(e: &E, cols: &[Col]) -> bool {
+    match e {
+        E::Between(c, Cell::I(lo), Cell::I(hi)) => cols[*c].index == Some("Bitmap") && lo > hi,
+        E::Between(c, Cell::S(lo), Cell::S(hi)) => cols[*c].index == Some("Bitmap") && lo > hi,
+        E::And(a, b) | E::Or(a, b) => inverted_between_on_bitmap(a, cols) || inverted_between_on_bitmap(b, cols),
+        E::Not(a) => inverted_between_on_bitmap(a, cols),
+        _ => false,
+    }
+}
+const BITMAP_PANIC: &str = "range start is greater than range end in BTreeMap";
+
 pub struct Table {
     pub ds: Dataset,
     pub cols: Vec<Col>,
@@ -375,6 +387,7 @@ fn gen_knobs(rng: &mut Rng) -> Knobs {
     }
 }
 
+#[derive(Clone)]
 pub struct Query {
     pub filter: Option<E>,
     pub filter_sql: Option<String>,
@@ -384,7 +397,40 @@ pub struct Query {
     pub order: Option<(usize, bool, bool)>, // (column, ascending, nulls_first); ties broken by id ascending
 }
 
+/// runs a future on its own task so that a panic inside lance becomes an `Err("panic ...")`
+pub async fn guard<T: Send + 'static>(f: impl std::future::Future<Output = Result<T, String>> + Send + 'static) -> Result<T, String> {
+    let prev = std::panic::take_hook();
+    std::panic::set_hook(Box::new(|_| {}));
+    let r = tokio::spawn(f).await;
+    std::panic::set_hook(prev);
+    match r {
+        Ok(x) => x,
+        Err(e) if e.is_panic() => {
+            let p = e.into_panic();
+            let msg = p.downcast_ref::<String>().cloned().or_else(|| p.downcast_ref::<&str>().map(|s| s.to_string())).unwrap_or_default();
+            Err(format!("panic: {msg}"))
+        }
+        Err(e) => Err(format!("join: {e}")),
+    }
+}
+/// runs the scan on its own task so that a panic inside lance becomes an `Err("panic ...")`
 pub async fn run_query(ds: &Dataset, cols: &[Col], q: &Query, k: &Knobs) -> Result<Vec<Vec<String>>, String> {
+    let (ds, cols, q, k) = (ds.clone(), cols.to_vec(), q.clone(), k.clone());
+    let prev = std::panic::take_hook();
+    std::panic::set_hook(Box::new(|_| {}));
+    let r = tokio::spawn(async move { run_query_inner(&ds, &cols, &q, &k).await }).await;
+    std::panic::set_hook(prev);
+    match r {
+        Ok(x) => x,
+        Err(e) if e.is_panic() => {
+            let p = e.into_panic();
+            let msg = p.downcast_ref::<String>().cloned().or_else(|| p.downcast_ref::<&str>().map(|s| s.to_string())).unwrap_or_default();
+            Err(format!("panic: {msg}"))
+        }
+        Err(e) => Err(format!("join: {e}")),
+    }
+}
+async fn run_query_inner(ds: &Dataset, cols: &[Col], q: &Query, k: &Knobs) -> Result<Vec<Vec<String>>, String> {
     let mut sc = ds.scan();
     if let Some(f) = &q.filter_sql {
         sc.filter(f).map_err(|e| format!("filter: {e}"))?;
@@ -711,6 +757,10 @@ pub async fn run(args: &Args, sink: &mut Sink) {
                             sink.oracle_fail(None, "scan result differs from the reference evaluation of the query", case);
                         }
                     }
+                    Err(e) if e.contains(BITMAP_PANIC) && q.filter.as_ref().map(|f| inverted_between_on_bitmap(f, &t.cols)).unwrap_or(false) => {
+                        sink.count("e2e/known/bitmap_inverted_range");
+                        sink.oracle_fail(Some(CLASS_BITMAP_RANGE), "BETWEEN with lower > upper on a Bitmap-indexed column panics in BitmapIndex::search", case);
+                    }
                     Err(e) if order_unproj && e.contains("TakeExec requires the input plan to have a column named") => {
                         sink.count("e2e/known/order_by_unprojected");
                         sink.oracle_fail(Some(CLASS_ORDER_UNPROJ), "ORDER BY on a column that is not projected fails to plan", case);
@@ -720,24 +770,32 @@ pub async fn run(args: &Args, sink: &mut Sink) {
             }
             // count_rows with the same filter = number of reference rows (no limit/offset)
             if !oob {
-                let c = t.ds.count_rows(q.filter_sql.clone()).await;
+                let (dsc, fsql) = (t.ds.clone(), q.filter_sql.clone());
+                let c = guard(async move { dsc.count_rows(fsql).await.map_err(|e| e.to_string()) }).await;
                 sink.count("e2e/count_rows");
+                let bm = q.filter.as_ref().map(|f| inverted_between_on_bitmap(f, &t.cols)).unwrap_or(false);
                 match c {
                     Ok(c) if c == count => sink.oracle_ok(),
+                    Err(e) if bm && e.contains(BITMAP_PANIC) => sink.oracle_fail(Some(CLASS_BITMAP_RANGE), "BETWEEN with lower > upper on a Bitmap-indexed column panics in BitmapIndex::search (count_rows)", json!({"filter": q.filter_sql})),
                     other => sink.oracle_fail(None, "Dataset::count_rows differs from the number of rows the reference query returns", json!({"table": t.desc, "filter": q.filter_sql, "got": format!("{other:?}"), "want": count})),
                 }
                 for use_index in [true, false] {
-                    let mut sc = t.ds.scan();
-                    if let Some(f) = &q.filter_sql {
-                        sc.filter(f).unwrap();
-                    }
-                    sc.use_scalar_index(use_index);
-                    sc.project::<String>(&[]).unwrap();
-                    sc.with_row_id();
-                    let c = sc.count_rows().await;
+                    let (dsc, fsql) = (t.ds.clone(), q.filter_sql.clone());
+                    let c = guard(async move {
+                        let mut sc = dsc.scan();
+                        if let Some(f) = &fsql {
+                            sc.filter(f).map_err(|e| e.to_string())?;
+                        }
+                        sc.use_scalar_index(use_index);
+                        sc.project::<String>(&[]).map_err(|e| e.to_string())?;
+                        sc.with_row_id();
+                        sc.count_rows().await.map_err(|e| e.to_string())
+                    })
+                    .await;
                     sink.count("e2e/count_rows");
                     match c {
                         Ok(c) if c as usize == count => sink.oracle_ok(),
+                        Err(e) if bm && e.contains(BITMAP_PANIC) => sink.oracle_fail(Some(CLASS_BITMAP_RANGE), "BETWEEN with lower > upper on a Bitmap-indexed column panics in BitmapIndex::search (count_rows)", json!({"filter": q.filter_sql})),
                         other => sink.oracle_fail(None, "count_rows differs from the number of rows the reference query returns", json!({"table": t.desc, "filter": q.filter_sql, "use_scalar_index": use_index, "got": format!("{other:?}"), "want": count})),
                     }
                 }
